@@ -805,7 +805,13 @@ pub fn ref_chunk(ty: Ty, op: Op, l: usize, a: &[u32], b: &[u32], c: &[u32]) -> V
                 if xs.iter().any(|v| v.is_nan()) || (xs.contains(&f64::INFINITY) && xs.contains(&f64::NEG_INFINITY)) {
                     vec![Exp::Num(fb(f32::NAN))]
                 } else if xs.iter().any(|v| v.is_infinite()) {
-                    vec![Exp::Num(fb(xs.iter().sum::<f64>() as f32))]
+                    let fin_abs: f64 = xs.iter().filter(|v| v.is_finite()).map(|v| v.abs()).sum();
+                    if fin_abs >= f32::MAX as f64 {
+                        // a partial sum of the finite lanes may overflow to the opposite infinity -> NaN
+                        vec![Exp::Any]
+                    } else {
+                        vec![Exp::Num(fb(xs.iter().sum::<f64>() as f32))]
+                    }
                 } else if abs >= f32::MAX as f64 {
                     vec![Exp::Any] // a partial sum may overflow depending on the order
                 } else {
@@ -955,7 +961,10 @@ pub fn check_block(ty: Ty, op: Op, a: &[u32], b: &[u32], c: &[u32], view: View, 
                     let operands = if op.lanewise() {
                         format!("a={} b={} c={}", fmt_lane(ty, a[i]), fmt_lane(ty, b[i]), fmt_lane(ty, c[i]))
                     } else {
-                        format!("a={:x?} b={:x?} c0={:#x}", &a[..l.min(N)], &b[..l.min(N)], c[0])
+                        // the vector (chunk) this output belongs to: outputs per chunk = len / (N / l)
+                        let per = (got.len() / (N / l)).max(1);
+                        let k = (i / per).min(N / l - 1) * l;
+                        format!("vector {} operands a={:x?} b={:x?} c[0]={:#x}", i / per, &a[k..k + l], &b[k..k + l], c[k])
                     };
                     return Err((
                         format!("prim:{}:{}:{}", ty.name(), op.name(), isa.name()),
